@@ -641,7 +641,7 @@ def trail(rng, density):
     return rng.choice(TRAIL_WS)
 
 
-_IMPORT_STMT = re.compile(r"^(?:import|from\s+\S+\s+import)\s+\S")
+_IMPORT_STMT = re.compile(r"^(?:import|from\s+\S+\s+import)\s+[^\s;][^;]*$")
 
 
 def imports_as_directives(tops):
